@@ -114,4 +114,28 @@ BLOCKS = {
             ],
         },
     },
+    "_rwg_selection_block": {
+        "function": ("bempp_cl.api.space.maxwell_spaces", "_compute_rwg0_space_data"),
+        "loop": ("_np.flatnonzero(support)", 0),
+        "params": ["element", "element_edges", "edge_dofs", "edge_neighbors", "edge_neighbors_ptr", "support", "dof_count", "include_boundary_dofs", "truncate_at_segment_edge"],
+        "returns": ["support", "edge_dofs", "dof_count"],
+        "contract": {
+            "opaque_ok": True,
+            "args": {"element": ("int",), "element_edges": ("arr2", (3, "N")), "edge_dofs": ("arr1",), "edge_neighbors": ("arr1",), "edge_neighbors_ptr": ("arr1",), "support": ("arr1",),
+                     "dof_count": ("int",), "include_boundary_dofs": ("int",), "truncate_at_segment_edge": ("int",)},
+            "requires": ["0 <= element and element < N", "len(support) == N", "dof_count >= 0",
+                         "forall(0, 3, lambda j: 0 <= element_edges[j, element] and element_edges[j, element] < len(edge_dofs))",
+                         "forall(0, len(edge_dofs), lambda x: edge_dofs[x] >= -1 and edge_dofs[x] < dof_count)"],
+            "result": ("tuple", 3),
+            "ensures": [
+                # precondition of the final block: an element that stays in the support has a dof on one of its edges
+                "result_0[element] == 0 or exists(0, 3, lambda j: result_1[element_edges[j, element]] != -1)",
+                # dof numbers stay in -1 .. dof_count - 1 and the counter only grows
+                "result_2 >= dof_count",
+                "forall(0, len(edge_dofs), lambda x: result_1[x] >= -1 and result_1[x] < result_2)",
+                # edges other than the three edges of this element keep their dof number
+                "forall(0, len(edge_dofs), lambda x: x == element_edges[0, element] or x == element_edges[1, element] or x == element_edges[2, element] or result_1[x] == edge_dofs[x])",
+            ],
+        },
+    },
 }
